@@ -109,7 +109,9 @@ pub fn file_info_str(f: &MDBFileInfo) -> String {
 
 struct FileRun { line: String, agg: DataAggregator, hash: MerkleHash, metrics: DeduplicationMetrics, total_fed: usize, xorbs: Vec<RawXorbData>, chunks: Vec<(MerkleHash, usize)>, answer: String,
                  /// every `deduped_blocks` slot the second loop consulted held an answer of at least 8 chunks (C11_repeat_free_real_estimator)
-                 covered8: bool }
+                 covered8: bool,
+                 /// `dedup.firstpass` operations (request, what the implementation did) of the first calls of the file
+                 firstpass: Vec<(String, String)> }
 
 /// build one file out of fresh chunks and chunks of known xorbs, feed it in blocks, log everything
 fn run_file(rt: &tokio::runtime::Runtime, rng: &mut Rng, shared: &Arc<Mutex<Shared>>, pattern: u64) -> FileRun {
@@ -151,6 +153,7 @@ fn run_file(rt: &tokio::runtime::Runtime, rng: &mut Rng, shared: &Arc<Mutex<Shar
     let mut pos = 0;
     let mut total_fed = 0;
     let mut covered8 = true;
+    let mut firstpass: Vec<(String, String)> = Vec::new();
     shared.lock().unwrap().honest = pattern == 5;
     while pos < chunks.len() {
         let n = if pattern == 5 { chunks.len() } else { (match rng.below(4) { 0 => 1, 1 => rng.range(1, 5), _ => rng.range(1, 300) } as usize).min(chunks.len() - pos) };
@@ -166,6 +169,21 @@ fn run_file(rt: &tokio::runtime::Runtime, rng: &mut Rng, shared: &Arc<Mutex<Shar
                 answers.push(format!("{}:{}:{}", n - qlen, k, seg_str(fse)));
                 if *pass == 1 { gc += k; gb += fse.unpacked_segment_bytes as usize; }
             }
+        }
+        // the first loop as the implementation ran it: per pass the positions it asked about and what it was told
+        if firstpass.len() < 4 {
+            let tok = |pass: u8| -> (String, String) {
+                let l: Vec<(usize, Option<usize>)> = sh.log.iter().filter(|e| e.0 == pass).map(|(_, qlen, a)| (n - qlen, a.as_ref().map(|x| x.0))).collect();
+                (if l.is_empty() { "-".to_string() } else { l.iter().map(|(p, k)| match k { Some(k) => format!("{p}:{k}"), None => format!("{p}:-") }).collect::<Vec<_>>().join(",") },
+                 l.iter().map(|(p, _)| p.to_string()).collect::<Vec<_>>().join(","))
+            };
+            let (p0, a0) = tok(0);
+            let two = sh.log.iter().any(|e| e.0 == 1) || sh.pass == 1;
+            let mut slots: BTreeMap<usize, usize> = BTreeMap::new();
+            for (_, qlen, a) in sh.log.iter() { if let Some((k, _)) = a { slots.insert(n - qlen, *k); } }
+            let slots_s = slots.iter().map(|(p, k)| format!("{p}:{k}")).collect::<Vec<_>>().join(",");
+            if two { let (p1, a1) = tok(1); firstpass.push((format!("dedup.firstpass n={n} p0={p0} p1={p1}"), format!("slots={slots_s} asked0={a0} asked1={a1}"))); }
+            else { firstpass.push((format!("dedup.firstpass n={n} p0={p0}"), format!("slots={slots_s} asked0={a0}"))); }
         }
         // follow the second loop: from slot 0, an answer of k chunks leads to slot + k
         { let mut at: BTreeMap<usize, usize> = BTreeMap::new();
@@ -185,7 +203,7 @@ fn run_file(rt: &tokio::runtime::Runtime, rng: &mut Rng, shared: &Arc<Mutex<Shar
     let line = format!("{salt_hex}/{}/{}", sha.hex(), if calls.is_empty() { "-".into() } else { calls.join("|") });
     let answer = format!("fh={} segs={} refs={} m={} cut={} nx={} rest={}:{}", fh.hex(), segs_str(&fi.0.segments), crate::ctx::join(&fi.1), metrics_str(&metrics),
                          xorbs.iter().map(xorb_str).collect::<Vec<_>>().join(","), new_xorbs.iter().map(|h| h.hex()).collect::<Vec<_>>().join(","), agg.num_chunks(), agg.num_bytes());
-    FileRun { line, agg, hash: fh, metrics, total_fed, xorbs, chunks: chunks.iter().map(|c| (c.hash, c.data.len())).collect(), answer, covered8 }
+    FileRun { line, agg, hash: fh, metrics, total_fed, xorbs, chunks: chunks.iter().map(|c| (c.hash, c.data.len())).collect(), answer, covered8, firstpass }
 }
 
 pub fn run_child(ctx: &mut Ctx) {
@@ -204,6 +222,7 @@ pub fn run_child(ctx: &mut Ctx) {
         let fr = run_file(&rt, &mut rng, &shared, pattern);
         let replay = format!("{{\"suite\":\"deduper\",\"seed\":{},\"file\":{},\"maxb\":{},\"maxc\":{},\"pattern\":{}}}", ctx.seed, fno, maxb, maxc, pattern);
 
+        for (req, ans) in &fr.firstpass { ctx.op(req, ans); ctx.stat(if req.contains(" p1=") { "firstpass_ops_two_passes" } else { "firstpass_ops_one_pass" }); }
         // ---- monitors on the implementation
         let m = &fr.metrics;
         // C11 (C11_repeat_free_real_estimator): every consulted slot answered with a run of >= 8 chunks => nothing is stored again
@@ -259,7 +278,7 @@ pub fn run_child(ctx: &mut Ctx) {
             ctx.op(&format!("dedup.file maxb={maxb} maxc={maxc} file={line}"), &format!("{answer} agg={} files={}", xorb_str(&x), files.iter().map(file_info_str).collect::<Vec<_>>().join(" ")));
             for f in &files { if f.segments.iter().any(|s| s.cas_hash == MerkleHash::default()) && x.num_bytes() > 0 { ctx.fail("C15", "unresolved-xorb-reference", format!("file record with a zero xorb hash after finalize (file {fno})"), replay.clone()); } }
         } else {
-            group.push(FileRun { agg: last.agg, ..FileRun { line: line.clone(), agg: DataAggregator::default(), hash, metrics: last.metrics, total_fed: last.total_fed, xorbs: vec![], chunks: vec![], answer: String::new(), covered8: false } });
+            group.push(FileRun { agg: last.agg, ..FileRun { line: line.clone(), agg: DataAggregator::default(), hash, metrics: last.metrics, total_fed: last.total_fed, xorbs: vec![], chunks: vec![], answer: String::new(), covered8: false, firstpass: vec![] } });
         }
         let _ = fr_chunks;
         // ---- dedup.multi: greedy aggregation of the collected odd files
